@@ -434,7 +434,30 @@ func init() {
 	concreteStr("strconv.ParseUint", strconv.ParseUint)
 	concreteStr("strconv.Atoi", strconv.Atoi)
 	concreteStr("strconv.Itoa", strconv.Itoa)
-	concreteStr("strconv.FormatInt", strconv.FormatInt)
+	externals["strconv.FormatInt"] = func(p *Path, _ *frame, fn *ssa.Function, a []Value) (Value, bool) {
+		if allConcrete(a) {
+			return p.nativeInvoke(reflect.ValueOf(strconv.FormatInt), fn, a), true
+		}
+		vt, ok := a[0].(*smt.Term)
+		base, bok := a[1].(int64)
+		if ok && bok {
+			// a value that depends on a few input bytes only: fork over it
+			if vals := p.enumValues(vt); vals != nil && len(vals) > 0 {
+				conds := make([]*smt.Term, len(vals))
+				for k, u := range vals {
+					conds[k] = p.C.Eq(vt, p.C.BV(u, 64))
+				}
+				v := int64(vals[p.chooseVerified(conds)])
+				return strconv.FormatInt(v, int(base)), true
+			}
+			if p.smallInts {
+				// stated bound: |v| < 10^4, digits computed by the real code
+				return nil, false
+			}
+		}
+		p.note("stub: strconv.FormatInt(symbolic) is an opaque text")
+		return "⟨int⟩", true
+	}
 	concreteStr("strconv.FormatUint", strconv.FormatUint)
 	concreteStr("strconv.Quote", strconv.Quote)
 	concreteStr("strconv.QuoteRune", strconv.QuoteRune)
@@ -455,6 +478,10 @@ func init() {
 	externals["strconv.ParseFloat"] = func(p *Path, _ *frame, fn *ssa.Function, a []Value) (Value, bool) {
 		if allConcrete(a) {
 			return p.nativeInvoke(reflect.ValueOf(strconv.ParseFloat), fn, a), true
+		}
+		if cs, ok := p.concretizeString(a[0]); ok {
+			// the symbolic bytes range over a small domain: fork over it
+			return p.nativeInvoke(reflect.ValueOf(strconv.ParseFloat), fn, []Value{cs, a[1]}), true
 		}
 		if strLen(a[0]) <= 6 {
 			// short symbolic text: interpret the real strconv.ParseFloat
@@ -488,6 +515,22 @@ func init() {
 				return Tuple{Slice{}, p.errorsNew(err.Error())}, true
 			}
 			return Tuple{p.bytesToSlice(b), Iface{}}, true
+		}
+		if ft, ok := i.V.(*smt.Term); ok && ft.Sort.K == smt.KFP {
+			// a float that depends on a few input bytes only (digits of a
+			// literal): fork over its feasible values and format natively
+			if vals := p.enumValues(ft); vals != nil && len(vals) > 0 {
+				conds := make([]*smt.Term, len(vals))
+				for k, u := range vals {
+					conds[k] = p.C.Eq(ft, p.C.FP(math.Float64frombits(u)))
+				}
+				f := math.Float64frombits(vals[p.chooseVerified(conds)])
+				b, err := json.Marshal(f)
+				if err != nil {
+					return Tuple{Slice{}, p.errorsNew(err.Error())}, true
+				}
+				return Tuple{p.bytesToSlice(b), Iface{}}, true
+			}
 		}
 		p.unsupported("json.Marshal(%s)", describe(i))
 		return nil, true
@@ -661,6 +704,17 @@ func init() {
 	// ---- package init filtering is done in worker.go ----
 }
 
+func init() {
+	b := func(x bool) uint64 {
+		if x {
+			return 1
+		}
+		return 0
+	}
+	smt.FuncImpl["xid_Start"] = func(a []uint64) uint64 { return b(xidStart(rune(int32(uint32(a[0]))))) }
+	smt.FuncImpl["xid_Continue"] = func(a []uint64) uint64 { return b(xidContinue(rune(int32(uint32(a[0]))))) }
+}
+
 type reflectBox struct{ v Iface }
 
 // xidStart / xidContinue follow github.com/smasher164/xid without the NFKC
@@ -719,6 +773,41 @@ func (p *Path) bytesToSlice(b []byte) Slice {
 		a[i] = uint64(c)
 	}
 	return Slice{A: a}
+}
+
+// concretizeString forks over the feasible values of the symbolic bytes of s
+// when each of them ranges over a small domain (found by evaluation).
+func (p *Path) concretizeString(s Value) (string, bool) {
+	ss, ok := s.(*SymStr)
+	if !ok {
+		cs, ok := s.(string)
+		return cs, ok
+	}
+	out := make([]byte, len(ss.B))
+	for i, b := range ss.B {
+		switch b := b.(type) {
+		case uint64:
+			out[i] = byte(b)
+		case *smt.Term:
+			t := p.simplify(b)
+			if u, ok := t.BVVal(); ok {
+				out[i] = byte(u)
+				continue
+			}
+			vals := p.enumValues(t)
+			if vals == nil || len(vals) == 0 || len(vals) > 64 {
+				return "", false
+			}
+			conds := make([]*smt.Term, len(vals))
+			for k, u := range vals {
+				conds[k] = p.C.Eq(t, p.C.BV(u, 8))
+			}
+			out[i] = byte(vals[p.chooseVerified(conds)])
+		default:
+			return "", false
+		}
+	}
+	return string(out), true
 }
 
 // encodeRune is utf8.AppendRune for a possibly symbolic rune.
